@@ -359,6 +359,15 @@ func c16run(hist []c16batch) (sig, what, outcome string) {
 	return "", "", strings.Join(ref.dump(), ";")
 }
 
+func c16index(alpha []c16op, id string) int {
+	for i, o := range alpha {
+		if o.id == id {
+			return i
+		}
+	}
+	panic("c16: no operation " + id)
+}
+
 func TestVerifC16(t *testing.T) {
 	r := vres.New("c16")
 	defer r.Finish()
@@ -437,6 +446,24 @@ func TestVerifC16(t *testing.T) {
 		for _, b2 := range second {
 			for _, h2 := range hooks {
 				eval([]c16batch{{"h1", b1}, {h2, b2}})
+			}
+		}
+	}
+	// batches in which the operations of one group are not next to each other (a hook that walks over
+	// objects and reports two groups per object): A, x, A with x of another group or of no group -
+	// alone and after a batch that left series of that group behind
+	for _, a := range alpha {
+		for _, b := range alpha {
+			for _, c := range alpha {
+				if a.group == "" || a.group != c.group || b.group == a.group || a.invalid || b.invalid || c.invalid {
+					continue
+				}
+				il := []c16op{a, b, c}
+				eval([]c16batch{{"h1", il}})
+				if !r.Expired() {
+					eval([]c16batch{{"h1", []c16op{alpha[c16index(alpha, "G2")]}}, {"h1", il}})
+					eval([]c16batch{{"h2", []c16op{alpha[c16index(alpha, "G6")]}}, {"h1", il}})
+				}
 			}
 		}
 	}
